@@ -273,6 +273,18 @@ def wrapper_order(ctx):
                   'the check loop dominates the driver call', 'the driver can be called before / without the check_<param> hooks', ww)
         ctx.check(bool(pre) and all(cfg.dominates(pre, i) for i in lid), f'{ww.qualname}:validate before check hooks', l,
                   'validate dominates the check loop', 'check hooks run on a value that was not validated', ww)
+    # the driver's return value is tested by identity (None / Done), never by truthiness
+    retvars = {t.id for n in body_walk(ww.node) if isinstance(n, ast.Assign) and any(n.value is d for d in drv) for t in n.targets if isinstance(t, ast.Name)}
+    for n in body_walk(ww.node):
+        if isinstance(n, (ast.If, ast.IfExp)):
+            for sub in ast.walk(n.test):
+                if isinstance(sub, ast.Name) and sub.id in retvars:
+                    par = sub.parent
+                    ident = isinstance(par, ast.Compare) and all(isinstance(o, (ast.Is, ast.IsNot)) for o in par.ops)
+                    ctx.check(ident, f'{ww.qualname}:driver return value tested by identity', n, f'`{src(n.test)}`',
+                              f'`{src(n.test)}` tests the value returned by the write method by truthiness: a falsy return (0, 0.0, False, \'\', an empty '
+                              'array - e.g. after clamping or an interlock) is treated as "no return value" and the requested value is cached and '
+                              'announced instead of what the driver set', ww)
     # announced value provenance
     funnel = roles.cache_funnel(m)
     for c in func_calls(ww.node, attr=funnel.name):
